@@ -27,7 +27,18 @@ def band_pattern(f, sym):
             whole = a[1][2][0]
     for c in mul:
         src = sym.operand(c.args[1], (c.bb, "term"))
-        if whole is not None and src != whole:
+        s_ = src
+        for _ in range(6):
+            if not (isinstance(s_, tuple) and s_):
+                break
+            if s_[0] in ("cast", "ref", "deref"):
+                s_ = s_[2] if s_[0] == "cast" else s_[1]
+            elif s_[0] == "call" and s_[1] in ("image_view", "deref", "as_ref", "borrow") and len(s_[2]) == 1:
+                s_ = s_[2][0]           # a getter: still the whole view the parameter holds
+            else:
+                break
+        # a band is a sub-view built here; the function's own source parameter is the whole view
+        if whole is not None and src != whole and s_[0] != "param":
             band = True
     if not band:
         return None
